@@ -1,4 +1,6 @@
 import SekaiProofs.Lemmas.MultiStakeRewards
+import Sekai.Gen.Keys
+import SekaiProofs.Lemmas.Keys
 /-! # C10 — Staking pools: shares match stake, pro-rata redemption, rewards reach stakers
 
 Theorems about the executable model `Sekai.Model.MultiStake` / `Sekai.Model.Distr` (which mirror, as coded,
@@ -512,5 +514,13 @@ theorem l2_burn_share_supply_counterexample :
     AMap.get s.bank.supply ⟨1, 0⟩ = 1000 ∧ (findPool s 0).map (fun p => AMap.get p.shares ⟨1, 0⟩) = some 1000 ∧
     (l2Burn s 2 [(⟨1, 0⟩, 400)]).map (fun s' => (AMap.get s'.bank.supply ⟨1, 0⟩, (findPool s' 0).map (fun p => AMap.get p.shares ⟨1, 0⟩)))
       = some (600, some 1000) := by decide +kernel
+
+/-! ### Key spaces of the stores this model keeps in separate maps (table `Gen.Keys`)
+
+The model keeps each record kind of a module in a field of its own; the module keeps them in ONE store under byte prefixes.
+No prefix extends another (checked on the regenerated table), so by `Sekai.Keys.keys_of_different_kinds_differ` a key of one
+kind is never a key of another kind. -/
+
+theorem multistaking_key_spaces_disjoint : Sekai.Keys.disjoint Sekai.Gen.Keys.stores "multistaking" = true := by decide +kernel
 
 end Sekai.Props.C10
